@@ -21,6 +21,31 @@ CHECKS = {
         design_ref="DESIGN.md section 5 C15"),
 }
 
+CHECKS["C16"] = dict(
+    technique="TLA+ model (FileCache.tla, sequential configuration) checked by TLC against CacheAbs.tla for every "
+              "operation sequence; each sequence executed through the Klong surface; results, byte totals and "
+              "accounting fields after every call validated by TLC (CacheTrace.tla)",
+    text="TLC enumerates every operation sequence up to the bound (set/get/missing key/reopen/unload/oversize, flat and "
+         "nested keys) x cache limits on the implementation-shaped model and checks dictionary semantics and the accounting "
+         "invariants; the same sequences run on the real KeyValueStorage with the real pickled sizes as model sizes: the "
+         "model's predicted result and byte total after every call must match (drift) and the recorded history and "
+         "snapshots are judged by TLC against the abstract dictionary + accounting spec.",
+    note="Trusted: TLC, the projection of FileCache fields, pickle. Bounds: sequences <= 3 (thorough 4) ops, 4 keys, "
+         "3 sizes + one round trip per value kind, 3 limits. TableStorage's merge is not yet modelled.",
+    design_ref="DESIGN.md section 5 C16")
+CHECKS["C18"] = dict(
+    technique="TLA+ model (FileCache.tla) of clients + worker tasks checked exhaustively by TLC against CacheAbs.tla "
+              "(linearizability, final agreement, accounting, deadlock); TLC-generated interleavings executed by the real "
+              "FileCache under a deterministic thread scheduler; recorded histories validated by TLC (CacheTrace.tla)",
+    text="All interleavings (at the granularity of lock sections, task submission/completion, future waits and file-system "
+         "calls) of every pair of client programs from a menu are model-checked; thousands of complete interleavings are "
+         "replayed on the real FileCache with its lock, executor, futures and file-system calls interposed, and the real "
+         "histories/final states are judged by TLC against the register specification.",
+    note="Trusted: TLC, harness/sched.py (one controlled thread runs at a time; yield points = spec labels). Known finding "
+         "F-C18-inflight is excluded from the exhaustive check and demonstrated separately. Bounds: 2-3 clients, <= 2 ops, "
+         "2 files, limits {3,5}.",
+    design_ref="DESIGN.md section 5 C18")
+
 NOT_YET = {}
 
 
